@@ -645,6 +645,9 @@ class NumberOrderedForm(Operator):
             ):
                 # Find the operator index in the operators list
                 op = base if base.is_annihilation else base.adjoint()
+                if isinstance(op, (pauli.SigmaOpBase, FermionOp)) and (exp - 1).is_positive:
+                    # Spin and fermion ladder operators square to zero.
+                    return cls(operators, Tuple(), validate=False)
                 powers = tuple(
                     exp * (One if base.is_annihilation else -One)
                     if op == operator
